@@ -150,11 +150,15 @@ def drop_params(line):
 
 @st.composite
 def hostile_line(draw, good):
-    k = draw(st.integers(0, 11))
+    k = draw(st.integers(0, 12))
     if k <= 2 and good:
         cands = drop_params(draw(st.sampled_from(good)))
         if cands:
             return draw(st.sampled_from(cands))
+    if k == 11 and good:
+        # a well-formed line whose last parameter is stretched far beyond the protocol's 512 bytes
+        cands = [l for l in good if " :" in l] or good
+        return draw(st.sampled_from(cands)) + draw(st.sampled_from(["x", "A b ", "\xe9"])) * draw(st.sampled_from([480, 600, 1000, 1024, 1100, 2000, 5000]))
     if k == 3:
         return draw(st.sampled_from(["", " ", "\t", "5", "5 ", "-1", "   7   ", "-1 ", "0", " 0 ", "+", "-", "5\t", "\x0b5 N h"]))
     if k == 4:
@@ -715,3 +719,10 @@ def evaluate(case, ctx):   # noqa: F811
     if isinstance(case, dict) and case.get("mode") == "inproc":
         return eval_inproc(case, ctx)
     return _evaluate2(case, ctx)
+
+
+def setup():
+    try:
+        build_inproc()
+    except vc.MachineryError as e:
+        print("NOTE: E-inproc harness does not build (%s); C08 will skip that component" % str(e).splitlines()[0][:100])
